@@ -24,6 +24,43 @@ example : closed [⟨"A", [], true, ["x", "y"], false, false, true, ["x", "y"], 
     closed [⟨"B", [], true, ["x"], false, false, true, ["x"], false⟩,
             ⟨"A", ["B"], true, ["y"], true, false, true, ["z"], true⟩] = false := by decide
 
+theorem get_saveRec (ks : List String) (attrs : String → Nat) (k : String) (hk : k ∈ ks) :
+    Rec.get? (ks.map (fun k => (k, attrs k))) k = some (attrs k) := by
+  induction ks with
+  | nil => cases hk
+  | cons a ks ih =>
+    simp only [List.map_cons, Rec.get?]
+    by_cases e : a = k
+    · subst e; simp
+    · rw [if_neg e]
+      rcases List.mem_cons.mp hk with h | h
+      · exact absurd h.symm e
+      · exact ih h
+
+/-- **What closedness buys** (`load_save_entity` for the record model): for every class of a closed table, loading what
+was saved never raises `KeyError`, and every key `_load` reads comes back with the value the entity had. -/
+theorem load_save_entity (cs : List PClass) (hc : closed cs = true) (c : PClass) (hm : c ∈ cs) (attrs : String → Nat) :
+    loadRec cs c (saveRec cs c attrs) = some ((effRead cs cs.length c).map (fun k => (k, attrs k))) := by
+  have hsub : ∀ k ∈ effRead cs cs.length c, k ∈ effSaved cs cs.length c := by
+    intro k hk
+    simp only [closed, Bool.and_eq_true, List.all_eq_true, List.contains_iff_mem, Bool.not_eq_true'] at hc
+    exact (hc.1 c hm).1 k hk
+  simp only [loadRec, saveRec]
+  generalize effRead cs cs.length c = rd at hsub
+  induction rd with
+  | nil => rfl
+  | cons k rd ih =>
+    have hk := get_saveRec (effSaved cs cs.length c) attrs k (hsub k (by simp))
+    simp only [List.mapM_cons, hk, Option.map_some, List.map_cons]
+    rw [ih (fun x hx => hsub x (List.mem_cons_of_mem _ hx))]
+    rfl
+
+/-- … instantiated with the generated table -/
+theorem load_save_entity_now (c : PClass) (hm : c ∈ SFV.Gen.persistClasses) (attrs : String → Nat) :
+    loadRec SFV.Gen.persistClasses c (saveRec SFV.Gen.persistClasses c attrs) =
+      some ((effRead SFV.Gen.persistClasses SFV.Gen.persistClasses.length c).map (fun k => (k, attrs k))) :=
+  load_save_entity _ persist_tables_closed c hm attrs
+
 /-- **Token values round-trip** (`load_save_val`): for every well-formed token value — plain tokens, `ListToken`s and
 `ObjectToken`s nested to any depth, any tags, any `recoverable` flags — and every database state, `Token.save` followed by
 `Token.load` of the returned id gives the same value back; in particular the same type, tag, members and the same
